@@ -466,7 +466,11 @@ func (c *Ctx) runTLC(o TLCOpts) *TLCResult {
 	}
 	if werr != nil && res.Violated == "" {
 		// exit code 12 = safety violation, 13 liveness; anything else without a named violation is infrastructure
-		infraFail("TLC failed on %s (%s): %v\n%s", o.Module, o.Purpose, werr, res.Output)
+		et := res.ErrorText
+		if len(et) > 3000 {
+			et = et[:3000]
+		}
+		infraFail("TLC failed on %s (%s): %v\n%s\n...\n%s", o.Module, o.Purpose, werr, et, lastLines(res.Output, 6))
 	}
 	mode := "exhaustive"
 	if o.Simulate {
@@ -523,6 +527,14 @@ func (c *Ctx) runMC(o TLCOpts) *TLCResult {
 		}
 	}
 	return res
+}
+
+func lastLines(s string, n int) string {
+	ls := strings.Split(s, "\n")
+	if len(ls) > n {
+		ls = ls[len(ls)-n:]
+	}
+	return strings.Join(ls, "\n")
 }
 
 func readLine(rd *bufio.Reader) ([]byte, error) {
